@@ -1,4 +1,6 @@
 SPECIFICATION Spec
-CONSTANT MaxOps = 3
+CONSTANTS MaxFlat = 3
+ Pairs = "all"
+ Seed = 1
 INVARIANT Emit
 CHECK_DEADLOCK FALSE
